@@ -240,18 +240,23 @@ impl Prop for C06 {
         ensure(ylo - 1, yhi + 1);
         let lo = c.year_start[ylo as usize] as usize;
         let hi = c.year_start[yhi as usize + 1] as usize;
+        let mut rev = Reverse::new(40);
         for i in lo..hi {
           run_case(env, out, "day2term", &Case::ints(&[i as i64]), &ev);
+          rev.note("day2term", &Case::ints(&[i as i64]));
         }
+        rev.run(env, out, &ev);
         out.set_exhaustive("day2term", true);
       }
       "terms" => {
         let (ylo, yhi) = shard_range(9999, shard, nshards);
         let (ylo, yhi) = (ylo as i64 + 1, yhi as i64);
         ensure(ylo - 1, yhi + 1);
+        let mut rev_seq = Reverse::new(11);
         for y in ylo..=yhi {
           for i in 0..24 {
             run_case(env, out, "seq", &Case::ints(&[y, i]), &ev);
+            rev_seq.note("seq", &Case::ints(&[y, i]));
           }
           if env.tier == Tier::Thorough || y % 10 == (env.seed % 10) as i64 || SPECIAL_YEARS.contains(&y) {
             for i in [0i64, 1, 22, 23] {
@@ -261,6 +266,7 @@ impl Prop for C06 {
             }
           }
         }
+        rev_seq.run(env, out, &ev);
         out.set_exhaustive("seq", true);
         let total: u32 = env.tier.pick(24_000, 1_000_000);
         prop_run(env, out, "step", total / nshards as u32, shard as u64, step_strategy(), &ev);
